@@ -97,6 +97,116 @@ type flowWalker struct {
 	out []string
 	// func-typed local variables and parameters (callbacks), numbered in order of first appearance
 	fnIdx map[types.Object]int
+	// functions currently being inlined (recursion guard)
+	inl []*types.Func
+	// tail: nothing of the function executes after the statement list being walked (a bare
+	// `return` there is redundant and not emitted)
+	tail bool
+}
+
+// pinnedFuncs: the functions that have a flow of their own; a call to one of them is an action
+// (`call Name`).  A call to any OTHER function or method declared in the package is replaced by
+// that function's own actions (inlined, to depth 4), so extracting a helper or inlining one does
+// not change a flow.
+var pinnedFuncs = map[string]bool{}
+
+func init() {
+	for _, fs := range flowSpecs {
+		pinnedFuncs[fs.fn] = true
+	}
+}
+
+// declOf finds the declaration (with body) of a function or method of this package.
+func (w *flowWalker) declOf(call *ast.CallExpr) (*types.Func, *ast.FuncDecl) {
+	var obj types.Object
+	switch f := call.Fun.(type) {
+	case *ast.Ident:
+		obj = w.pi.info.Uses[f]
+	case *ast.SelectorExpr:
+		if sel, ok := w.pi.info.Selections[f]; ok {
+			obj = sel.Obj()
+		} else {
+			obj = w.pi.info.Uses[f.Sel]
+		}
+	case *ast.IndexExpr: // explicit instantiation f[T](...)
+		if id, ok := f.X.(*ast.Ident); ok {
+			obj = w.pi.info.Uses[id]
+		}
+	}
+	fn, ok := obj.(*types.Func)
+	if !ok || fn == nil || fn.Pkg() != w.pi.pkg {
+		return nil, nil
+	}
+	fn = fn.Origin()
+	for _, file := range w.pi.files {
+		for _, d := range file.Decls {
+			if fd, ok := d.(*ast.FuncDecl); ok && fd.Body != nil {
+				if o, ok := w.pi.info.Defs[fd.Name].(*types.Func); ok && o.Origin() == fn {
+					return fn, fd
+				}
+			}
+		}
+	}
+	return nil, nil
+}
+
+func qualName(fd *ast.FuncDecl) string {
+	if fd.Recv == nil || len(fd.Recv.List) == 0 {
+		return fd.Name.Name
+	}
+	t := fd.Recv.List[0].Type
+	for {
+		switch x := t.(type) {
+		case *ast.StarExpr:
+			t = x.X
+			continue
+		case *ast.IndexExpr:
+			t = x.X
+			continue
+		case *ast.IndexListExpr:
+			t = x.X
+			continue
+		case *ast.ParenExpr:
+			t = x.X
+			continue
+		}
+		break
+	}
+	if id, ok := t.(*ast.Ident); ok {
+		return id.Name + "." + fd.Name.Name
+	}
+	return fd.Name.Name
+}
+
+// terminates: control does not reach the statement after this block
+func terminates(stmts []ast.Stmt) bool {
+	if len(stmts) == 0 {
+		return false
+	}
+	switch x := stmts[len(stmts)-1].(type) {
+	case *ast.ReturnStmt:
+		return true
+	case *ast.BranchStmt:
+		return true
+	case *ast.BlockStmt:
+		return terminates(x.List)
+	case *ast.ExprStmt:
+		if c, ok := x.X.(*ast.CallExpr); ok {
+			if id, ok := c.Fun.(*ast.Ident); ok && id.Name == "panic" {
+				return true
+			}
+		}
+	case *ast.IfStmt:
+		if x.Else == nil {
+			return false
+		}
+		eb, ok := x.Else.(*ast.BlockStmt)
+		if !ok {
+			return terminates(x.Body.List) && terminates([]ast.Stmt{x.Else})
+		}
+		return terminates(x.Body.List) && terminates(eb.List)
+	}
+	return false
 }
 
 func (w *flowWalker) emit(s string) { w.out = append(w.out, s) }
@@ -182,7 +292,7 @@ func (w *flowWalker) canon(e ast.Expr) string {
 		}
 		return w.canon(x.Fun) + "(" + strings.Join(args, ",") + ")"
 	case *ast.IndexExpr:
-		return w.canon(x.X) + "[" + w.canon(x.Index) + "]"
+		return w.canon(x.X) + "[_]"
 	case *ast.IndexListExpr:
 		return w.canon(x.X) + "[…]"
 	case *ast.StarExpr:
@@ -227,6 +337,41 @@ func (w *flowWalker) expr(e ast.Expr) {
 		for _, a := range x.Args {
 			w.expr(a)
 		}
+		if fn, fd := w.declOf(x); fd != nil {
+			if pinnedFuncs[qualName(fd)] {
+				w.emit("call " + qualName(fd))
+				return
+			}
+			onStack := false
+			for _, g := range w.inl {
+				if g == fn {
+					onStack = true
+				}
+			}
+			if len(w.inl) < 4 && !onStack {
+				w.inl = append(w.inl, fn)
+				t := w.tail
+				w.tail = true
+				defer func() { w.tail = t }()
+				body := fd.Body.List
+				// a trailing `return e` contributes the actions of e only
+				if n := len(body); n > 0 {
+					if ret, ok := body[n-1].(*ast.ReturnStmt); ok {
+						w.block(body[:n-1])
+						for _, r := range ret.Results {
+							w.expr(r)
+						}
+						w.inl = w.inl[:len(w.inl)-1]
+						return
+					}
+				}
+				w.block(body)
+				w.inl = w.inl[:len(w.inl)-1]
+				return
+			}
+			w.emit("call " + qualName(fd))
+			return
+		}
 		if relevantCall(name) {
 			w.emit("call " + name)
 		}
@@ -257,9 +402,12 @@ func (w *flowWalker) expr(e ast.Expr) {
 			}
 		}
 	case *ast.FuncLit:
+		t := w.tail
+		w.tail = true
 		w.emit("func{")
 		w.block(x.Body.List)
 		w.emit("}")
+		w.tail = t
 	case *ast.TypeAssertExpr:
 		w.expr(x.X)
 	case *ast.SliceExpr:
@@ -267,10 +415,132 @@ func (w *flowWalker) expr(e ast.Expr) {
 	}
 }
 
+// block walks a statement list.  `if` statements are normalised so that equivalent spellings give
+// the same flow: when one branch of an `if` does not fall through (ends in return / continue /
+// break / panic), the statements that follow the `if` belong to the other branch — so
+// `if c {A; return}; B`, `if c {A; return} else {B}` and `if !c {B} else {A; return}` coincide;
+// a negated condition with both branches present swaps them.
 func (w *flowWalker) block(stmts []ast.Stmt) {
-	for _, st := range stmts {
+	tail := w.tail
+	defer func() { w.tail = tail }()
+	for i, st := range stmts {
+		w.tail = tail && i == len(stmts)-1
+		if x, ok := st.(*ast.IfStmt); ok {
+			w.tail = tail
+			rest := stmts[i+1:]
+			w.ifStmt(x, rest)
+			return
+		}
+		if sw, ok := st.(*ast.SwitchStmt); ok && sw.Tag == nil && sw.Init == nil {
+			if x := switchAsIf(sw); x != nil {
+				w.tail = tail
+				w.ifStmt(x, stmts[i+1:])
+				return
+			}
+		}
 		w.stmt(st)
 	}
+}
+
+// switchAsIf rewrites a tagless `switch { case a: A; case b: B; default: C }` as the chain
+// `if a {A} else if b {B} else {C}` (a trailing `break` of a case body is dropped), so both
+// spellings give the same flow.
+func switchAsIf(sw *ast.SwitchStmt) *ast.IfStmt {
+	var clauses []*ast.CaseClause
+	var def *ast.CaseClause
+	for _, c := range sw.Body.List {
+		cc := c.(*ast.CaseClause)
+		if cc.List == nil {
+			def = cc
+		} else {
+			clauses = append(clauses, cc)
+		}
+	}
+	if len(clauses) == 0 {
+		return nil
+	}
+	body := func(cc *ast.CaseClause) *ast.BlockStmt {
+		b := cc.Body
+		if n := len(b); n > 0 {
+			if br, ok := b[n-1].(*ast.BranchStmt); ok && br.Tok == token.BREAK && br.Label == nil {
+				b = b[:n-1]
+			}
+		}
+		return &ast.BlockStmt{List: b}
+	}
+	var tail ast.Stmt
+	if def != nil {
+		tail = body(def)
+	}
+	for i := len(clauses) - 1; i >= 0; i-- {
+		cc := clauses[i]
+		cond := cc.List[0]
+		for _, e := range cc.List[1:] {
+			cond = &ast.BinaryExpr{X: cond, Op: token.LOR, Y: e}
+		}
+		tail = &ast.IfStmt{Cond: cond, Body: body(cc), Else: tail}
+	}
+	return tail.(*ast.IfStmt)
+}
+
+func elseList(e ast.Stmt) []ast.Stmt {
+	if e == nil {
+		return nil
+	}
+	if b, ok := e.(*ast.BlockStmt); ok {
+		return b.List
+	}
+	return []ast.Stmt{e} // else if …
+}
+
+func (w *flowWalker) ifStmt(x *ast.IfStmt, rest []ast.Stmt) {
+	if x.Init != nil {
+		w.stmt(x.Init)
+	}
+	cond := x.Cond
+	w.expr(cond)
+	thenB := append([]ast.Stmt{}, x.Body.List...)
+	elseB := append([]ast.Stmt{}, elseList(x.Else)...)
+	hasElse := x.Else != nil
+	switch {
+	case terminates(thenB) && !terminates(elseB):
+		elseB = append(elseB, rest...)
+		hasElse = hasElse || len(rest) > 0
+		rest = nil
+	case terminates(elseB) && !terminates(thenB):
+		thenB = append(thenB, rest...)
+		rest = nil
+	case terminates(thenB) && terminates(elseB):
+		rest = nil // unreachable
+	}
+	// negation: `if !c {A} else {B}` is `if c {B} else {A}`
+	neg := false
+	for {
+		if p, ok := cond.(*ast.ParenExpr); ok {
+			cond = p.X
+			continue
+		}
+		if u, ok := cond.(*ast.UnaryExpr); ok && u.Op == token.NOT {
+			neg = !neg
+			cond = u.X
+			continue
+		}
+		break
+	}
+	if neg && hasElse {
+		thenB, elseB = elseB, thenB
+	}
+	tail := w.tail
+	w.tail = tail && len(rest) == 0
+	w.emit("if{")
+	w.block(thenB)
+	if hasElse {
+		w.emit("}else{")
+		w.block(elseB)
+	}
+	w.emit("}")
+	w.tail = tail
+	w.block(rest)
 }
 
 func (w *flowWalker) stmt(st ast.Stmt) {
@@ -278,14 +548,34 @@ func (w *flowWalker) stmt(st ast.Stmt) {
 	case *ast.ExprStmt:
 		w.expr(x.X)
 	case *ast.AssignStmt:
+		// operands of the left-hand sides are evaluated first (calls inside them are actions)
+		for _, l := range x.Lhs {
+			switch lx := l.(type) {
+			case *ast.IndexExpr:
+				w.expr(lx.X)
+				w.expr(lx.Index)
+			case *ast.SelectorExpr:
+				w.expr(lx.X)
+			case *ast.StarExpr:
+				w.expr(lx.X)
+			}
+		}
 		for _, r := range x.Rhs {
 			w.expr(r)
 		}
 		for _, l := range x.Lhs {
 			// writes of the shared maps / fields the model tracks
 			t := w.canon(l)
+			// an indexed lvalue is also named by the type of what is indexed, whatever expression
+			// denotes it (`b[key] = …`, `m.bucketFor(n)[key] = …`)
+			t2 := ""
+			if ix, ok := l.(*ast.IndexExpr); ok {
+				if tv, ok := w.pi.info.Types[ix.X]; ok && tv.Type != nil {
+					t2 = canonType(tv.Type) + "["
+				}
+			}
 			for _, p := range []string{"lockedMap.data", "expirationMap.buckets", "expirationMap.lastCleanedBucketNum", "sampledLFU.keyCosts", "sampledLFU.used", "tinyLFU.incrs", "bucket[", "ringStripe.data", "Item.flag", "Item.Cost", "Item.Conflict"} {
-				if strings.HasPrefix(t, p) {
+				if strings.HasPrefix(t, p) || (t2 != "" && strings.HasPrefix(t2, p)) {
 					w.emit("write " + p)
 					break
 				}
@@ -307,27 +597,26 @@ func (w *flowWalker) stmt(st ast.Stmt) {
 		for _, r := range x.Results {
 			w.expr(r)
 		}
-		w.emit("return")
+		if w.tail && len(x.Results) == 0 {
+			break // falls off the end anyway
+		}
+		if len(w.inl) > 0 {
+			w.emit("ret") // return of an inlined helper, not of the pinned function
+		} else {
+			w.emit("return")
+		}
 	case *ast.BranchStmt:
 		w.emit(x.Tok.String())
 	case *ast.BlockStmt:
 		w.block(x.List)
 	case *ast.IfStmt:
-		if x.Init != nil {
-			w.stmt(x.Init)
-		}
-		w.expr(x.Cond)
-		w.emit("if{")
-		w.block(x.Body.List)
-		if x.Else != nil {
-			w.emit("}else{")
-			w.stmt(x.Else)
-		}
-		w.emit("}")
+		w.ifStmt(x, nil)
 	case *ast.ForStmt:
 		if x.Init != nil {
 			w.stmt(x.Init)
 		}
+		t := w.tail
+		w.tail = false
 		w.emit("for{")
 		w.expr(x.Cond)
 		w.block(x.Body.List)
@@ -335,11 +624,16 @@ func (w *flowWalker) stmt(st ast.Stmt) {
 			w.stmt(x.Post)
 		}
 		w.emit("}")
+		w.tail = t
 	case *ast.RangeStmt:
+		// same skeleton as an index loop over the same collection
 		w.expr(x.X)
-		w.emit("range " + w.canon(x.X) + "{")
+		t := w.tail
+		w.tail = false
+		w.emit("for{")
 		w.block(x.Body.List)
 		w.emit("}")
+		w.tail = t
 	case *ast.SelectStmt:
 		w.emit("select{")
 		for _, c := range x.Body.List {
@@ -405,6 +699,17 @@ func simplifyFlow(in []string) []string {
 				changed = true
 				continue
 			}
+			// conditions are not recorded: a one-armed conditional is `if{ … }` whichever arm it was
+			if i+1 < len(in) && in[i] == "if{" && in[i+1] == "}else{" {
+				out = append(out, "if{")
+				i++
+				changed = true
+				continue
+			}
+			if i+1 < len(in) && in[i] == "}else{" && in[i+1] == "}" {
+				changed = true
+				continue
+			}
 			out = append(out, in[i])
 		}
 		in = out
@@ -420,7 +725,7 @@ func genFlows(load func(string) *pkgInfo) (string, error) {
 		if fd == nil {
 			return "", fmt.Errorf("flow: function %s not found", fs.fn)
 		}
-		w := &flowWalker{pi: pi}
+		w := &flowWalker{pi: pi, tail: true}
 		w.block(fd.Body.List)
 		flow := simplifyFlow(w.out)
 		fmt.Fprintf(&b, "/-- actions of %s in source order -/\ndef %s : List String := [", fs.fn, fs.lean)
